@@ -298,3 +298,14 @@ def parse_args_loop(_it, _seq):
 class CliInit:
     modifies = ["initialized", "models_data", "enable_datetime", "strings_converters", "max_literals", "merge_policy",
                 "structure_fn", "model_generator", "model_generator_kwargs", "argparser"]
+
+
+@assumed("os.getenv", props=[])
+class OsGetenv:
+    sorts = {"result": "any"}
+
+
+@assumed("coverage.process_startup", props=[])
+class CoverageStartup:
+    """test-infrastructure hook; assumed not to touch the library's objects or produce output"""
+    sorts = {"result": "any"}
